@@ -389,6 +389,13 @@ func (c *Checker) expandMacro(macro *types.Method, kind ast.MacroKind, posArgs [
 		promise = vm.NewNativePromise(c.threadPool, body.Function, runtimeArgs...)
 	case *vm.BytecodeFunction:
 		promise = vm.NewBytecodePromise(c.threadPool, body, runtimeArgs...)
+	case nil:
+		// the body of the macro has not been compiled because it has errors
+		c.addFailure(
+			fmt.Sprintf("cannot expand macro `%s`, its definition has errors", types.InspectWithColor(macro)),
+			loc,
+		)
+		return nil
 	default:
 		panic(fmt.Sprintf("invalid compiled macro body %T for: %s", body, macro.InspectSignature(false)))
 	}
